@@ -36,6 +36,10 @@ func c02(c *Ctx) (*report.Result, error) {
 		checkNoWriteAfterHandover(c, res, "O2.5", f, "routed message")
 		checkFreshPerHandover(c, res, "O2.5", f)
 	}
+	res.RuleDoc["O2.6"] = "delivery cannot wedge on the registries' locks: no critical section of package proxy re-acquires its own mutex and the mutexes nest in one order (same analysis as O8.6) - every task passes through the shard manager's channel table and the stream tracker on its way to the target"
+	if spx, err := c.Prog.SSAPkg("proxy"); err == nil {
+		checkReentrancy(c, res, "O2.6", []*ssa.Package{spx}, func(string) bool { return true })
+	}
 	res.Explanation = "SSA of proxy.NewClusterConnection (which shard count the RoutingParameters closure selects for the server that forwards to each cluster) and of the chain buildProxyServer -> NewAdminServiceProxyServer -> StreamWorkflowReplicationMessages -> handleStream -> streamRouting -> proxyStreamReceiver (the count and the reverse client reach the receiver unchanged), of recvReplicationMessages (arguments of WorkflowIDToHistoryShard, the retry loop's bookkeeping) and of proxyStreamSender.sendReplicationMessages (who writes nextProxyTaskID, by how much, under which lock, followed by which ring append; which values the id fields and the exclusive high watermark receive). Necessary shapes of 'each task once, to the owning shard, with strictly increasing ids and a covering watermark'; exactly-once, ordering and watermark monotonicity under interleavings of several sources are not decided. Observation (no rule): tasks without RawTaskInfo / namespace id / workflow id are dropped from the grouping without an error."
 	res.Assumptions = []string{"servercommon.WorkflowIDToHistoryShard is Temporal's shard hash"}
 	return res, nil
